@@ -24,6 +24,8 @@ use tvh::{guarded, Args};
 mod c08_columnar;
 #[path = "../c08_tantivy.rs"]
 mod c08_tantivy;
+#[path = "../c08_legacy.rs"]
+mod c08_legacy;
 
 const HEADER: &str = "From TV Require Import Base.Prelude Generated.Constants Columnar.BitPack Columnar.MonoMap Columnar.Stats Columnar.Line Columnar.Blockwise Columnar.OptionalIndex Columnar.Spec Columnar.Cases.";
 
